@@ -23,6 +23,7 @@ var (
 	flagKeep    = flag.String("keep", "", "keep SMT files in this directory")
 	flagJobs    = flag.Int("j", 6, "parallel obligations (each races three solver processes)")
 	flagVerbose = flag.Bool("v", false, "verbose")
+	flagCanary  = flag.Bool("canary", false, "add a reachability canary (must-not-prove false) at every return")
 	flagOnly    = flag.String("only", "", "regexp: only obligations whose name matches")
 )
 
@@ -62,6 +63,11 @@ func main() {
 			prop = args[2]
 		}
 		os.Exit(cmdProve(args[1], prop))
+	case "replay":
+		if len(args) < 2 {
+			usage()
+		}
+		os.Exit(cmdReplay(args[1]))
 	case "ssa":
 		if len(args) < 2 {
 			usage()
@@ -77,7 +83,7 @@ func programsFor(prop string) []string {
 	switch prop {
 	case "C18", "C19":
 		return []string{"root"}
-	case "C04", "C09", "C10", "C12", "C20":
+	case "C09", "C10", "C12", "C20":
 		return []string{"v5", "root"}
 	}
 	return []string{"v5"}
@@ -202,6 +208,9 @@ func solveAll(obls []*Obligation, dir string, timeout int) {
 	var wg sync.WaitGroup
 	sem := make(chan struct{}, *flagJobs)
 	for i, o := range obls {
+		if o.Result != nil {
+			continue // decided by the generator
+		}
 		wg.Add(1)
 		go func(i int, o *Obligation) {
 			defer wg.Done()
@@ -226,7 +235,11 @@ func solveAll(obls []*Obligation, dir string, timeout int) {
 					o.Result = &SolveResult{Status: "error", Output: err.Error()}
 					return
 				}
-				r := solve(file, timeout)
+				to := timeout
+				if o.MustBeSat && to > 4 {
+					to = 4
+				}
+				r := solve(file, to)
 				if agg == nil {
 					agg = &r
 					o.File = file
@@ -407,9 +420,12 @@ func cmdCheck(prop, tier string) int {
 				continue
 			}
 			if len(g.fatal) > 0 {
-				for _, m := range g.fatal {
-					undecided = append(undecided, g.fname+": "+m)
-				}
+				// the function uses something outside the modelled subset: no obligation of it can be discharged
+				o := &Obligation{Name: g.fname + "/G/function-out-of-reach", Class: "G", Func: g.fname, Pos: g.posString(f.Pos()), Props: []string{prop},
+					Goal: "false", Src: strings.Join(g.fatal, "; "), gen: g,
+					Result: &SolveResult{Status: "unknown", Solver: "generator", Output: strings.Join(g.fatal, "; "), Outputs: map[string]string{"generator": strings.Join(g.fatal, "; ")}}}
+				all = append(all, o)
+				functions = append(functions, g.fname)
 				continue
 			}
 			if len(g.obls) > 0 {
@@ -565,4 +581,38 @@ func lemmaObligations(e *Engine, prop string) []*Obligation {
 		out = append(out, o)
 	}
 	return out
+}
+
+// cmdReplay re-runs a stored replay: the Go witness test (if any) against /repo's working tree, and the
+// stored SMT query through the solvers.
+func cmdReplay(path string) int {
+	b, err := os.ReadFile(path)
+	if err != nil {
+		fmt.Println("cannot read replay file:", err)
+		return 2
+	}
+	var rf replayFile
+	if err := json.Unmarshal(b, &rf); err != nil {
+		fmt.Println("bad replay file:", err)
+		return 2
+	}
+	fmt.Printf("obligation: %s\nclass: %s\nposition: %s\nclause: %s\n", rf.Obligation, rf.Class, rf.Position, rf.Clause)
+	rc := 0
+	if rf.SMTFile != "" {
+		r := solve(rf.SMTFile, *flagTimeout)
+		fmt.Printf("solver answer now: %s (%s, %.1fs); recorded: %s\n", r.Status, r.Solver, r.Time, rf.Status)
+		if r.Status != "unsat" {
+			rc = 1
+		}
+	}
+	for _, w := range loadWitnesses() {
+		if w.Obligation == rf.Obligation {
+			r := runWitness(&w.Witness)
+			fmt.Printf("witness %q on the real code: reproduced=%v\n%s\n", w.Witness.Input, r.Reproduced, r.Output)
+			if r.Reproduced {
+				rc = 1
+			}
+		}
+	}
+	return rc
 }
